@@ -36,6 +36,9 @@ func (p Profile) maxDepth() int {
 	return p.MaxDepth
 }
 
+// deepDepth is used for the occasional deeply nested type.
+const deepDepth = 7
+
 func (p Profile) maxFields() int {
 	if p.MaxFields == 0 {
 		return 6
@@ -84,6 +87,10 @@ func weighted(t *rapid.T, label string, weights ...int) int {
 
 // GenType draws a top-level type.
 func GenType(t *rapid.T, p Profile) *TSpec {
+	if p.MaxDepth == 0 && rapid.IntRange(0, 19).Draw(t, "deep") == 0 {
+		p.MaxDepth = deepDepth
+		p.MaxFields = 2 // deep but narrow
+	}
 	g := &tgen{t: t, p: p}
 	if p.TopStruct {
 		return g.structT(0)
@@ -298,13 +305,17 @@ func (g *tgen) indexes(n int) []int {
 	}
 	for len(out) < n {
 		var i int
-		switch weighted(g.t, "ixc", 10, 3, 1) {
+		switch weighted(g.t, "ixc", 300, 90, 30, 1) {
 		case 0:
 			i = rapid.IntRange(lo, 15).Draw(g.t, "ix")
 		case 1:
 			i = rapid.IntRange(16, 2047).Draw(g.t, "ix")
-		default:
+		case 2:
 			i = rapid.IntRange(2048, 5000).Draw(g.t, "ix")
+		default:
+			// rarely a very large index (3- and 4-byte tags; implementations may switch
+			// representation for sparse index spaces). The field table costs 24 bytes per index.
+			i = pick(g.t, "ixbig", []int{65535, 65536, 100000, 262143, 262144})
 		}
 		for seen[i] {
 			i++
@@ -328,10 +339,26 @@ func (g *tgen) structT(depth int) *TSpec {
 	if n == 0 && rapid.IntRange(0, 3).Draw(g.t, "empty") != 0 {
 		n = 1
 	}
+	wide := false
+	if g.nodes < 12 && rapid.IntRange(0, 24).Draw(g.t, "wide") == 0 {
+		// occasionally a wide struct (code paths that depend on the number of fields)
+		n = rapid.IntRange(9, 24).Draw(g.t, "nwide")
+		if rapid.IntRange(0, 7).Draw(g.t, "vwide") == 0 {
+			// very wide: around the sizes of bitmaps and small fixed tables
+			n = pick(g.t, "nvwide", []int{32, 33, 63, 64, 65, 70, 129, 257})
+		}
+		wide = true
+	}
 	idx := g.indexes(n)
 	fs := make([]Field, 0, n+2)
 	for i := 0; i < n; i++ {
-		ft, opt := g.fieldType(depth)
+		var ft *TSpec
+		var opt string
+		if wide && i >= 4 {
+			ft = g.leaf(true) // keep wide structs cheap: mostly leaves
+		} else {
+			ft, opt = g.fieldType(depth)
+		}
 		f := F(g.fieldName(), idx[i], ft)
 		if opt != "" {
 			f.Plenc += "," + opt
@@ -667,7 +694,7 @@ func (g *vgen) str() []byte {
 		// around the one/two byte length-prefix boundary, rarely the 2/3 one
 		n := pick(g.t, "sl", []int{126, 127, 128, 129, 200, 300})
 		if rapid.IntRange(0, 40).Draw(g.t, "huge") == 0 {
-			n = pick(g.t, "sh", []int{16383, 16384, 16385})
+			n = pick(g.t, "sh", []int{16383, 16384, 16385, 65535, 65536, 65537})
 		}
 		b := make([]byte, n)
 		fill := rapid.Byte().Draw(g.t, "sf")
